@@ -3089,14 +3089,30 @@ impl Translator {
                     self.collect_captures_expr(&arg.val, captures, mono);
                 }
             }
-            ExprKind::AnonymousFunction(..)
-            | ExprKind::MemberAccessLeadingDot(..)
+            // whatever a nested lambda or task captures must be available in the enclosing
+            // function too (the caller removes the enclosing function's own locals and arguments)
+            ExprKind::AnonymousFunction(args, _, body) => {
+                let func_ty = self.statics.solution_of_node(expr.node()).unwrap();
+                let overload_ty = if !func_ty.is_overloaded() {
+                    None
+                } else {
+                    Some(func_ty.subst(mono))
+                };
+                let (_, inner_captures, _) =
+                    self.calculate_args_captures_locals(&overload_ty, args, body, mono);
+                captures.extend(inner_captures);
+            }
+            ExprKind::TaskBlock(body) => {
+                let (_, inner_captures, _) =
+                    self.calculate_args_captures_locals(&None, &[], body, mono);
+                captures.extend(inner_captures);
+            }
+            ExprKind::MemberAccessLeadingDot(..)
             | ExprKind::Nil
             | ExprKind::Int(..)
             | ExprKind::Float(..)
             | ExprKind::Bool(..)
             | ExprKind::Str(..) => {}
-            ExprKind::TaskBlock(_) => unimplemented!(),
         }
     }
 
